@@ -363,8 +363,10 @@ class C01(GenCheck):
     def expected(self, case):
         env = exprs.Env({n: (s, f, case["values"][n]) for n, s, f in case["decls"]}, case["reginit"])
         dfmt = dest_fmt(case)
-        W = exprs.width_of_statement(dsl.fmt_size(dfmt), case["expr"], env)
-        vals, ok, why = exprs.meaning(case["expr"], env, W)
+        # constant sub-trees are plain Python numbers before the DSL sees them (neg(-1) is the constant 1, typed by its value)
+        expr = self.fold(case["expr"])
+        W = exprs.width_of_statement(dsl.fmt_size(dfmt), expr, env)
+        vals, ok, why = exprs.meaning(expr, env, W)
         ring_only = exprs.ops_of(case["expr"]) <= exprs.RING
         shifts_ok = "shift amount" not in why
         checkable = (ok or (ring_only and shifts_ok))
